@@ -27,6 +27,11 @@ Arguments String.append : simpl never.
 Arguments Z.add : simpl never.
 Arguments range_full : simpl never.
 Arguments range_hit : simpl never.
+Arguments chain_waiting : simpl never.
+Arguments gget : simpl never.
+Arguments mget : simpl never.
+Arguments gset : simpl never.
+Arguments mset : simpl never.
 
 (* ====================================================================================== *)
 (* A. what a run can depend on *)
@@ -67,8 +72,8 @@ Qed.
 
 Ltac lookups :=
   repeat match goal with
-  | |- context [match ?f ?x with _ => _ end] => is_var f; destruct (f x) as [[? | ? | ? | ? | ?]|]
-  | |- context [match ?f ?x with _ => _ end] => is_var f; destruct (f x) as [[]|]
+  | |- context [match gget ?k ?g with _ => _ end] => destruct (gget k g) as [[? | ? | ? | ? | ? | ?]|]
+  | |- context [match mget ?k ?g with _ => _ end] => destruct (mget k g) as [[]|]
   | |- context [if range_hit ?p ?l then _ else _] => destruct (range_hit p l)
   | |- context [if range_full ?l then _ else _] => destruct (range_full l)
   | |- context [match ?l with [] => _ | _ :: _ => _ end] => is_var l; destruct l
@@ -112,7 +117,7 @@ Proof.
   - (* IStartImport *)
     apply meq_inv in H.
     destruct H as (he & fibs & cd & cd' & mods & ch & rg & rg' & gl & out & lo & ex & st & -> & ->).
-    cbn. destruct (mods m) as [[]|]; cbn.
+    cbn. destruct (mget m mods) as [[]|]; cbn.
     + split; [apply meq_refl_parts | reflexivity].
     + split; [apply raise_meq; apply meq_refl_parts | reflexivity].
     + destruct m; cbn; split; try reflexivity;
@@ -170,15 +175,16 @@ Proof.
   intros c c' H; destr_states; unfold ceq in H; cbn in H.
   destruct H as [? [? [? [? ?]]]]; subst.
   unfold m_run_ok, m_runtime_error, m_reset_stack; cbn.
+  match goal with |- context [chain_waiting ?l] => destruct (chain_waiting l) end;
   match goal with |- context [match ?l with [] => _ | _ :: _ => _ end] => destruct l end; cbn;
     repeat split; reflexivity.
 Qed.
 
 Lemma code_nodef : forall s, (forall c z, s <> SnClass c z) -> nodef (code_of s) = true.
 Proof.
-  intros s H; destruct s as [g z|g|f g|f|cl z|cl|pre|w d|  |  |  |  |k|  |m|m| ]; try reflexivity.
+  intros s H; destruct s as [g z|g|f g|f|cl z|cl|pre|w d|  |  |  |  |k|  |  |m|m| ]; try reflexivity.
   - exfalso; eapply H; reflexivity.
-  - destruct d as [[g z]|]; destruct w as [|[]| | | | | | | | | | ]; reflexivity.
+  - destruct d as [[g z]|]; destruct w as [|[]| | | | | | | | | | | ]; reflexivity.
   - destruct k; reflexivity.
 Qed.
 
@@ -192,11 +198,11 @@ Theorem snippet_leq : forall c c' s, leq c c' ->
 Proof.
   intros c c' s H. apply leq_inv in H.
   destruct H as (he & he' & fibs & fibs' & cd & cd' & mods & ch & rg & rg' & gl & -> & ->).
-  destruct s as [g z|g|f g|f|cl z|cl|pre|w d|  |  |  |  |k|  |m|m| ].
+  destruct s as [g z|g|f g|f|cl z|cl|pre|w d|  |  |  |  |k|  |  |m|m| ].
   5: { (* SnClass: DeclareClass sets the pending definition before DefineClass takes it *)
        cbn. repeat split. }
   6: { (* SnSyntax *) cbn. split; [reflexivity | split; [repeat split | intros Hf; discriminate Hf]]. }
-  15: { (* SnReset *) cbn. unfold m_reset, m_reset_stack; cbn.
+  16: { (* SnReset *) cbn. unfold m_reset, m_reset_stack; cbn.
         destruct fibs, fibs'; cbn; (split; [reflexivity | split; [repeat split | intros Hf; discriminate Hf]]). }
   all: match goal with |- context [m_snippet _ ?s] =>
          assert (Hn : nodef (code_of s) = true) by (apply code_nodef; intros; discriminate);
@@ -278,7 +284,10 @@ Definition settled (o : obs) : Prop :=
 Lemma clean_run_ok : forall c, clean (m_run_ok c).
 Proof. intros c; unfold clean, m_run_ok; destruct c as [? [|f r] ? ? ? ? ?]; cbn; auto. Qed.
 Lemma clean_runtime_error : forall c, clean (m_runtime_error c).
-Proof. intros c; unfold clean, m_runtime_error, m_reset_stack; destruct c as [? [|f r] ? ? ? ? ?]; cbn; auto. Qed.
+Proof.
+  intros c; unfold clean, m_runtime_error, m_reset_stack; destruct c as [? [|f r] ? ? ? ? ?]; cbn;
+    match goal with |- context [chain_waiting ?l] => destruct (chain_waiting l) end; cbn; auto.
+Qed.
 Lemma clean_reset : forall c, clean (m_reset c).
 Proof. intros c; unfold clean, m_reset, m_reset_stack; destruct c as [? [|f r] ? ? ? ? ?]; cbn; auto. Qed.
 
